@@ -181,8 +181,12 @@ contract(NEP, name='numeric-operand-parts', props=['C01'], returns='ParsedOperan
              'implies(result is not None and "bytecode" in self._config and result._bytecode is not None,'
              ' isa(value_of(result._bytecode), "NumericByteCodePart")'
              ' and value_of(result._bytecode)._value_size == cfg_int(self._config["bytecode"]["size"])'
+             ' and value_of(result._bytecode)._value == cfg_int(self._config["bytecode"]["value"])'
              ' and not value_of(result._bytecode)._byte_align)',
-             'implies(result is not None and not ("bytecode" in self._config), result._bytecode is None)'],
+             'implies(result is not None and not ("bytecode" in self._config), result._bytecode is None)',
+             # (NumericEnumerationOperand, a subclass, looks its code up in a dictionary and has its own parse_operand)
+             'implies(result is not None and "bytecode" in self._config and not isa(self, "NumericEnumerationOperand"),'
+             ' result._bytecode is not None)'],
          modifies=[], allocates=True, no_frame_check=True)
 
 # ---- address / relative-address / register operands: the parts they build ---------------------------------------------
@@ -210,15 +214,17 @@ CODE_OK = ('implies(result is not None and "bytecode" in self._config and result
            ' and value_of(result._bytecode)._value == cfg_int(self._config["bytecode"]["value"])'
            ' and not value_of(result._bytecode)._byte_align)')
 NO_CODE = 'implies(result is not None and not ("bytecode" in self._config), result._bytecode is None)'
+# (an operand configured with a code field always contributes it -- whatever its value, 0 included)
+HAS_CODE = 'implies(result is not None and "bytecode" in self._config, result._bytecode is not None)'
 ARGCFG = ['"argument" in self._config', '"size" in self._config["argument"]']
 contract(OT + 'address:AddressOperand._parse_bytecode_parts', name='address-operand-parts', props=['C01'],
          returns='ParsedOperand?', requires=ARGCFG,
          may_raise={'SystemExit': 'True', 'SyntaxError': 'True', 'KeyError': 'True', 'ValueError': 'True'},
-         ensures=[ARG_OK, CODE_OK, NO_CODE], modifies=[], allocates=True, no_frame_check=True)
+         ensures=[ARG_OK, CODE_OK, NO_CODE, HAS_CODE], modifies=[], allocates=True, no_frame_check=True)
 contract(OT + 'relative_address:RelativeAddressOperand.parse_operand', name='relative-operand-parts', props=['C01', 'C12'],
          returns='ParsedOperand?', requires=ARGCFG,
          may_raise={'SystemExit': 'True', 'SyntaxError': 'True', 'KeyError': 'True', 'AttributeError': 'True'},
-         ensures=[ARG_OK, CODE_OK, NO_CODE,
+         ensures=[ARG_OK, CODE_OK, NO_CODE, HAS_CODE,
                   # the configured limits of the offset and the "measured from the last byte" flag are the part's
                   'implies(result is not None, isa(value_of(result._argument), "RelativeAddressByteCodePart"))',
                   'implies(result is not None, value_of(result._argument)._offset_from_instruction_end == ite('
@@ -232,5 +238,5 @@ contract(OT + 'relative_address:RelativeAddressOperand.parse_operand', name='rel
          modifies=[], allocates=True, no_frame_check=True)
 contract(OT + 'register:RegisterOperand.parse_operand', name='register-operand-parts', props=['C01'],
          returns='ParsedOperand?', may_raise={'SystemExit': 'True', 'KeyError': 'True'},
-         ensures=['implies(result is not None, result._argument is None)', CODE_OK, NO_CODE],
+         ensures=['implies(result is not None, result._argument is None)', CODE_OK, NO_CODE, HAS_CODE],
          modifies=[], allocates=True, no_frame_check=True)
